@@ -459,6 +459,18 @@ fn run_all_inspections(
 
         // dump the metadata
         let filename = format!("{}.link", inspect.name());
+        // the working directory holds the product under verification: what
+        // is already there under this name must not be written through (a
+        // fifo would block for ever, a device or a link leads elsewhere)
+        if let Ok(existing) = std::fs::symlink_metadata(&filename) {
+            if !existing.file_type().is_file() {
+                return Err(Error::VerificationFailure(format!(
+                    "can not write the link of inspection {}: {} exists and is not a regular file",
+                    inspect.name(),
+                    filename
+                )));
+            }
+        }
         std::fs::write(filename, serde_json::to_string_pretty(&metablock)?)?;
 
         // record in the hashmap
